@@ -363,6 +363,21 @@ def Wrapper.apply : Wrapper → Err → Err
   | .joinLeft os, e => .join (os ++ [e])
   | .joinRight os, e => .join (e :: os)
 
+/-! ## glue: what the OTLP/gRPC exporter hands to the retry loop (`otlpexporter.processError`) -/
+
+/-- `shouldRetry`: Canceled, DeadlineExceeded, Aborted, OutOfRange, Unavailable, DataLoss; ResourceExhausted only with RetryInfo -/
+def grpcRetryable (code : Nat) (hasRetryInfo : Bool) : Bool :=
+  code == 1 || code == 4 || code == 10 || code == 11 || code == 14 || code == 15 || (code == 8 && hasRetryInfo)
+
+/-- `processError` on a gRPC status `code` with an optional `RetryInfo.retry_delay` (ns): `none` = success,
+else the error the retry loop will see -/
+def grpcProcess (code : Nat) (retryInfo : Option Nat) : Option Err :=
+  if code = 0 then none
+  else if !grpcRetryable code retryInfo.isSome then some (.perm .leaf)
+  else match retryInfo with
+    | some d => if d ≠ 0 then some (.throttle d .leaf) else some .leaf
+    | none => some .leaf
+
 /-! ## the search oracle: the property's clauses evaluated on an observed call sequence -/
 
 /-- an observed run: calls `(start, payload)` and the returned error's classification -/
